@@ -340,6 +340,32 @@ M("validate-message-level-inverted", ["C09", "C01"], "_action.py", "        if n
 M("validate-message-uuid-dropped", ["C09", "C01"], "_action.py", "        if message.task_uuid != self.task_uuid:\n            raise WrongTask(self, message)\n", "", ".model")
 M("written-message-level-from-uuid", ["C09"], "_message.py", "        return TaskLevel(level=self._logged_dict[TASK_LEVEL_FIELD])", "        return TaskLevel(level=self._logged_dict.get(TASK_LEVEL_FIELD, [1]))", ".model")
 
+# --- the reader loop written with iter(callable, sentinel): same behaviour when the handler stays inside the loop, a bug when it moves outside
+B("reader-iter-sentinel-form", ["*"], [("logwriter.py", "        while True:\n            msg = self._queue.get()\n            if msg is _STOP:\n                return\n            try:",
+                                       "        for msg in iter(self._queue.get, _STOP):\n            try:")])
+V.append({"id": "reader-iter-handler-around-loop", "kind": "mutant", "props": ["C19", "C08", "C11", "C16", "C12", "C01"], "expect": "C19.contain", "edits": [
+    ("logwriter.py", "        while True:\n            msg = self._queue.get()\n            if msg is _STOP:\n                return\n            try:\n                self._destination(msg)\n            except Exception:",
+     "        try:\n            for msg in iter(self._queue.get, _STOP):\n                self._destination(msg)\n        except Exception:\n            if True:")]})
+
+# --- the failed end message built as layers: extracted fields first and computed fields over them (same), or the other way round (an extractor overrides status/exception/reason)
+_FAIL_ARM = ('            fields = _error_extraction.get_fields_for_exception(self._logger, exception)\n            fields[EXCEPTION_FIELD] = "%s.%s" % (\n'
+             '                exception.__class__.__module__,\n                exception.__class__.__name__,\n            )\n'
+             '            fields[REASON_FIELD] = safeunicode(exception)\n            fields[ACTION_STATUS_FIELD] = FAILED_STATUS\n')
+B("finish-failure-fields-layered", ["*"], [("_action.py", _FAIL_ARM,
+   '            cls = type(exception)\n            fields = dict(_error_extraction.get_fields_for_exception(self._logger, exception))\n'
+   '            fields.update({EXCEPTION_FIELD: "%s.%s" % (cls.__module__, cls.__name__), REASON_FIELD: safeunicode(exception), ACTION_STATUS_FIELD: FAILED_STATUS})\n')])
+M("finish-failure-fields-extractor-on-top", ["C03", "C14", "C01"], "_action.py", _FAIL_ARM,
+  '            cls = type(exception)\n            fields = {EXCEPTION_FIELD: "%s.%s" % (cls.__module__, cls.__name__), REASON_FIELD: safeunicode(exception), ACTION_STATUS_FIELD: FAILED_STATUS}\n'
+  '            fields.update(_error_extraction.get_fields_for_exception(self._logger, exception))\n', "C03.failfields")
+
+# --- extractor lookup written with registry.get(): same when a failing extractor still ends the search, a bug when the walk goes on to a base class
+_MRO_OLD = ('            if klass in self.registry:\n                extractor = self.registry[klass]\n                try:\n                    return extractor(exception)\n                except:\n'
+            '                    from ._traceback import _write_extractor_traceback\n\n                    _write_extractor_traceback(logger)\n                    return {}\n')
+_MRO_GET = ('            extractor = self.registry.get(klass)\n            if extractor is None:\n                continue\n            try:\n                return extractor(exception)\n            except:\n'
+            '                from ._traceback import _write_extractor_traceback\n\n                _write_extractor_traceback(logger)\n')
+B("extractor-lookup-get-form", ["*"], [("_errors.py", _MRO_OLD, _MRO_GET + '                return {}\n')])
+M("extractor-lookup-get-form-continues", ["C03"], "_errors.py", _MRO_OLD, _MRO_GET, "C03.mro")
+
 # --- mechanical whole-package rewrites (sa/transforms.py); each was confirmed to keep the 404 baseline tests passing
 for _t in ("alpha", "ifelse", "retvar"):
     V.append({"id": "transform:" + _t, "kind": "benign", "props": ["*"], "transform": _t})
